@@ -5,7 +5,7 @@ use crate::{action::Action, http::Request, router::Router};
 
 use super::{Example, Rule};
 
-const REDIRECTION_CODES: [u16; 4] = [301, 302, 307, 308];
+const REDIRECTION_CODES: [u16; 5] = [301, 302, 303, 307, 308];
 
 #[derive(Serialize, Debug, Clone)]
 pub struct RedirectionLoop {
@@ -108,7 +108,7 @@ impl RedirectionLoop {
                 error = Some(RedirectionError::AtLeastOneHop);
             }
 
-            if [301, 302].contains(&final_status_code) {
+            if [301, 302, 303].contains(&final_status_code) {
                 current_method = String::from("GET");
             }
 
